@@ -113,7 +113,9 @@ func (j *Join) Exec() ([]any, error) {
 		{
 			return j.StraightJoin()
 		}
-	case j.joinType.IsHashJoin() || hashJoinAnalyze(j.leftIdent, j.rightIdent, j.joinExpr):
+	// a hash join is only sound for a conjunction of equalities; a requested
+	// HASH_JOIN on any other condition falls back to the nested loop
+	case hashJoinAnalyze(j.leftIdent, j.rightIdent, j.joinExpr):
 		{
 			return j.HashJoin()
 		}
